@@ -1,11 +1,15 @@
 #!/bin/bash
-# tools/seedtest.sh <seeded-dir> <prop> [check args...]: apply a seeded change to /repo, run the check, undo.
+# tools/seedtest.sh <seeded-dir> <prop> [check args...]: run a check against a
+# seeded change. The change is applied to a scratch worktree of /repo (never to
+# /repo itself), the check builds from it (VERIF_REPO), the worktree is removed.
 d=$(realpath $1); shift; prop=$1; shift
-git -C /repo diff --quiet || { echo "repo dirty"; exit 2; }
-git -C /repo apply "$d/patch.diff" || { echo "patch does not apply"; exit 2; }
+wt=/tmp/seedwt-$$
+git -C /repo worktree add --detach $wt HEAD >/dev/null 2>&1 || { echo "cannot create worktree"; exit 2; }
+trap 'git -C /repo worktree remove --force $wt >/dev/null 2>&1; rm -rf $wt' EXIT
+git -C $wt apply "$d/patch.diff" || { echo "patch does not apply"; exit 2; }
 # VERIF_ADHOC: the evidence of a run on a deliberately broken tree goes to
-# evidence/adhoc/, never over the committed evidence file
-VERIF_ADHOC=1 /verif/check $prop "$@" ; rc=$?
-git -C /repo checkout -- . 
+# evidence/adhoc/, never over the committed evidence file; replays of such
+# runs go to replays/seeded/
+VERIF_ADHOC=1 VERIF_REPO=$wt /verif/check $prop "$@" ; rc=$?
 echo "seedtest $d $prop -> exit $rc"
 exit $rc
